@@ -172,7 +172,7 @@ Qed.
 (* the invariant only looks at these fields *)
 Lemma Inv_same k cs outer c c' :
   Inv k cs outer c ->
-  d_nodes (c_doc c') = d_nodes (c_doc c) ->
+  links_of_nodes (d_nodes (c_doc c')) = links_of_nodes (d_nodes (c_doc c)) ->
   c_parent_id c' = c_parent_id c ->
   c_awaiting c' = c_awaiting c ->
   c_parent_prefixes c' = c_parent_prefixes c ->
@@ -181,3 +181,484 @@ Proof.
   intros [H1 H2 H3 H4 H5 H6 H7] E1 E2 E3 E4.
   constructor; try assumption; congruence.
 Qed.
+
+(* ------------------------------------------------------------------ *)
+(** * append_node *)
+
+Lemma append_node_rows k cs outer c kind r id c' :
+  Inv k cs outer c ->
+  append_node kind r c = Ok (id, c') ->
+  exists nodes',
+    id = zoff outer + 1 + sizes cs /\
+    c' = set_awaiting (set_doc c (set_nodes (c_doc c) nodes'))
+                      (if is_element_kind kind then [] else [id]) /\
+    links_of_nodes nodes' = encode (ztree k (cs ++ [T (kind_of kind) []]) outer).
+Proof.
+  intros HI H. pose proof (inv_len _ _ _ _ HI) as Hlen.
+  pose proof (inv_rows _ _ _ _ HI) as Hrows.
+  pose proof (inv_pid _ _ _ _ HI) as Hpid.
+  pose proof (inv_aw _ _ _ _ HI) as Haw.
+  unfold append_node in H.
+  set (pid := zoff outer) in *.
+  set (n := len_N (d_nodes (c_doc c))) in *.
+  destruct (nodes_limit (c_opt c) <=? n); [discriminate|].
+  unfold node_id_new in H. destruct (u32_max <=? n); [discriminate|].
+  cbn [bind] in H.
+  match type of H with bind (match ?x with _ => _ end) _ = _ => destruct x as [pnd|] eqn:Epnd end;
+    [|discriminate].
+  cbn [bind] in H.
+  apply bind_ok in H. destruct H as [nodes2 [Hu1 H]].
+  apply bind_ok in H. destruct H as [nodes3 [Hu2 H]].
+  apply bind_ok in H. destruct H as [nodes4 [Hu3 H]].
+  injection H as <- <-.
+  exists nodes4. split; [exact Hlen|]. split; [reflexivity|].
+  pose proof (encode_ztree k cs outer) as E. cbv zeta in E. fold pid in E.
+  rewrite <- Hlen in E. rewrite E in Hrows. clear E.
+  set (A := zpre n outer) in *.
+  set (R := open_row k (zpar outer) (zprev outer) (last_child_id (pid + 1) cs)) in *.
+  assert (HB : zrest cs outer = enc_children n (Some pid) None (pid + 1) cs)
+    by (unfold zrest; fold pid; rewrite <- Hlen; reflexivity).
+  rewrite HB in Haw.
+  set (B := enc_children n (Some pid) None (pid + 1) cs) in *.
+  assert (HlenA : len_N A = pid) by apply zpre_len.
+  assert (HlenB : len_N B = sizes cs) by apply enc_children_len.
+  set (new0 := {| nd_parent := Some (c_parent_id c); nd_prev_sibling := None;
+                  nd_next_subtree := None; nd_last_child := None;
+                  nd_kind := kind; nd_range := r |}) in *.
+  assert (Hrows1 : map link_of (d_nodes (c_doc c) ++ [new0]) = A ++ R :: B ++ [link_of new0]).
+  { rewrite map_app. rewrite links_of_nodes_map in Hrows. rewrite Hrows, <- app_assoc. reflexivity. }
+  (* the parent row *)
+  assert (Hlc : nd_last_child pnd = last_child_id (pid + 1) cs).
+  { apply nth_N_Some in Epnd. destruct Epnd as [Epnd _].
+    apply (map_nth_error link_of) in Epnd. rewrite Hrows1, Hpid in Epnd.
+    rewrite nth_error_mid in Epnd by exact HlenA.
+    assert (Ep : link_of pnd = R) by (clear - Epnd; congruence).
+    change (nd_last_child pnd) with (l_last (link_of pnd)).
+    rewrite Ep. reflexivity. }
+  apply upd_node_spec in Hu1. destruct Hu1 as [-> _].
+  apply upd_node_spec in Hu2. destruct Hu2 as [-> _].
+  apply set_next_subtree_all_spec in Hu3. subst nodes4.
+  rewrite links_of_nodes_map.
+  rewrite (map_mapi_N link_of _ (fun j x => if memN j (c_awaiting c) then lk_set_next x n else x))
+    by (intros i x; destruct (memN i (c_awaiting c)); reflexivity).
+  rewrite (map_mapi_N link_of _ (fun j x => if j =? c_parent_id c then lk_set_last x (Some n) else x))
+    by (intros i x; destruct (i =? c_parent_id c); reflexivity).
+  rewrite (map_mapi_N link_of _ (fun j x => if j =? n then lk_set_prev x (nd_last_child pnd) else x))
+    by (intros i x; destruct (i =? n); reflexivity).
+  rewrite !mapi_N_comp, Hrows1, Hpid, Hlc, Haw.
+  match goal with |- mapi_N 0 ?g _ = _ => set (G := g) end.
+  rewrite mapi_N_app. cbn [mapi_N]. rewrite mapi_N_app. cbn [mapi_N].
+  rewrite N.add_0_l, HlenA, HlenB.
+  assert (HA : mapi_N 0 G A = A).
+  { apply mapi_N_id. intros i x _ Hi. rewrite HlenA in Hi. unfold G.
+    rewrite memN_none_ids_out by lia.
+    replace (i =? pid) with false by lia. replace (i =? n) with false by lia. reflexivity. }
+  assert (HR : G pid R = lk_set_last R (Some n)).
+  { unfold G. rewrite memN_none_ids_out by lia.
+    rewrite N.eqb_refl. replace (pid =? n) with false by lia. reflexivity. }
+  assert (HBm : mapi_N (pid + 1) G B = map (bump n) B).
+  { transitivity (mapi_N (pid + 1)
+       (fun i x => if memN i (rev (none_ids (pid + 1) B)) then lk_set_next x n else x) B).
+    2: apply (mapi_bump (fun i => memN i (rev (none_ids (pid + 1) B)))).
+    - apply mapi_N_ext. intros i x Hi1 Hi2. rewrite HlenB in Hi2. unfold G.
+      replace (i =? pid) with false by lia. replace (i =? n) with false by lia. reflexivity.
+    - intros j r0 Hj. apply memN_none_ids. exact Hj. }
+  assert (HN : G (pid + 1 + sizes cs) (link_of new0) =
+               lk_set_prev (link_of new0) (last_child_id (pid + 1) cs)).
+  { unfold G. rewrite memN_none_ids_out by lia. rewrite <- Hlen.
+    replace (n =? pid) with false by lia. rewrite N.eqb_refl. reflexivity. }
+  rewrite HA, HR, HBm, HN. clear HA HR HBm HN G.
+  pose proof (encode_ztree k (cs ++ [T (kind_of kind) []]) outer) as E. cbv zeta in E.
+  fold pid in E. rewrite E. clear E.
+  assert (Hn' : pid + 1 + sizes (cs ++ [T (kind_of kind) []]) = n + 1).
+  { rewrite sizes_app, sizes_cons, sizes_nil, size_T, sizes_nil. lia. }
+  rewrite Hn'. rewrite (zpre_ext (n + 1) n) by (fold pid; lia). fold A.
+  f_equal. f_equal.
+  - unfold R, open_row, lk_set_last. cbn [l_kind l_parent l_prev l_last l_next_subtree].
+    rewrite last_child_id_app_one. f_equal. f_equal. lia.
+  - rewrite enc_children_snoc, enc_children_bump by lia. fold B. f_equal.
+    rewrite enc_T, enc_children_nil. f_equal.
+    unfold row_of, lk_set_prev, link_of, new0.
+    cbn [l_kind l_parent l_prev l_last l_next_subtree nd_kind nd_parent nd_prev_sibling
+         nd_last_child nd_next_subtree last_child_id].
+    rewrite prev_after_None, sizes_nil, Hpid.
+    replace (pid + 1 + sizes cs + (1 + 0) <? n + 1) with false by lia. reflexivity.
+Qed.
+
+(* the row of the innermost open node *)
+Lemma inv_parent_row k cs outer c pnd :
+  Inv k cs outer c ->
+  nth_N (d_nodes (c_doc c)) (c_parent_id c) = Some pnd ->
+  link_of pnd = open_row k (zpar outer) (zprev outer) (last_child_id (zoff outer + 1) cs).
+Proof.
+  intros HI Hn. apply nth_N_Some in Hn. destruct Hn as [Hn _].
+  apply (map_nth_error link_of) in Hn. rewrite <- links_of_nodes_map in Hn.
+  rewrite (inv_rows _ _ _ _ HI), (inv_pid _ _ _ _ HI) in Hn.
+  pose proof (encode_ztree k cs outer) as E. cbv zeta in E. rewrite E in Hn. clear E.
+  rewrite nth_error_mid in Hn by apply zpre_len. congruence.
+Qed.
+
+Lemma closed_ok_leaf kd : kd <> KdRoot -> closed_ok (T kd []) = true.
+Proof.
+  intros H. unfold closed_ok. cbn [tkind no_root_below only_containers_have_children forallb].
+  destruct kd; try reflexivity. congruence.
+Qed.
+
+(* a childless node appended under the innermost open node (leaf, or empty-element tag) *)
+Lemma Inv_append_closed k cs outer c kind r id c' :
+  Inv k cs outer c ->
+  append_node kind r c = Ok (id, c') ->
+  kind_of kind <> KdRoot ->
+  Inv k (cs ++ [T (kind_of kind) []]) outer (set_awaiting c' [id]).
+Proof.
+  intros HI H Hk. destruct (append_node_rows _ _ _ _ _ _ _ _ HI H) as [nodes' [Hid [Hc' Hrows]]].
+  subst c'. constructor.
+  - exact Hrows.
+  - exact (inv_pid _ _ _ _ HI).
+  - cbn [c_awaiting set_awaiting].
+    unfold zrest. set (pid := zoff outer) in *.
+    rewrite sizes_app, sizes_cons, sizes_nil, size_T, sizes_nil.
+    replace (pid + 1 + (sizes cs + (1 + 0 + 0))) with (pid + 1 + sizes cs + 1) by lia.
+    rewrite enc_children_snoc, enc_children_bump by lia.
+    rewrite none_ids_app, (none_ids_all_next (map _ _)) by apply forallb_has_next_bump.
+    rewrite len_N_map, enc_children_len, enc_T, enc_children_nil.
+    cbn [app none_ids]. unfold has_next, row_of. cbn [l_next_subtree]. rewrite sizes_nil.
+    replace (pid + 1 + sizes cs + (1 + 0) <? pid + 1 + sizes cs + 1) with false by lia.
+    cbn [app rev]. rewrite Hid. reflexivity.
+  - exact (inv_pp _ _ _ _ HI).
+  - exact (inv_kinds _ _ _ _ HI).
+  - rewrite forallb_app, (inv_cs _ _ _ _ HI). cbn [forallb]. rewrite closed_ok_leaf by exact Hk.
+    reflexivity.
+  - exact (inv_outer _ _ _ _ HI).
+Qed.
+
+(* open tag: the new element becomes the innermost open node *)
+Lemma Inv_open k cs outer c kind r id c' px :
+  Inv k cs outer c ->
+  append_node kind r c = Ok (id, c') ->
+  kind_of kind = KdElem ->
+  Inv KdElem [] ((k, cs) :: outer)
+      (set_parent_prefixes (set_parent_id c' id) (c_parent_prefixes c' ++ [px])).
+Proof.
+  intros HI H Hk. destruct (append_node_rows _ _ _ _ _ _ _ _ HI H) as [nodes' [Hid [Hc' Hrows]]].
+  assert (Hel : is_element_kind kind = true) by (destruct kind; try discriminate; reflexivity).
+  subst c'. rewrite Hel. constructor.
+  - cbn [c_doc set_parent_prefixes set_parent_id set_awaiting set_doc d_nodes set_nodes].
+    rewrite Hrows, Hk. reflexivity.
+  - cbn [c_parent_id set_parent_prefixes set_parent_id zoff]. exact Hid.
+  - reflexivity.
+  - cbn [c_parent_prefixes set_parent_prefixes set_parent_id set_awaiting set_doc].
+    rewrite app_length, (inv_pp _ _ _ _ HI). cbn [length]. lia.
+  - cbn [kinds_ok]. split; [reflexivity|exact (inv_kinds _ _ _ _ HI)].
+  - reflexivity.
+  - cbn [forallb snd]. rewrite (inv_cs _ _ _ _ HI), (inv_outer _ _ _ _ HI). reflexivity.
+Qed.
+
+(* close tag: the innermost open node becomes the last child of its parent *)
+Lemma Inv_close k cs k' cs' o c c' :
+  Inv k cs ((k', cs') :: o) c ->
+  links_of_nodes (d_nodes (c_doc c')) = links_of_nodes (d_nodes (c_doc c)) ->
+  c_parent_id c' = zoff o ->
+  c_awaiting c' = c_awaiting c ++ [c_parent_id c] ->
+  length (c_parent_prefixes c') = S (length o) ->
+  Inv k' (cs' ++ [T k cs]) o c'.
+Proof.
+  intros HI E1 E2 E3 E4. constructor.
+  - rewrite E1, (inv_rows _ _ _ _ HI). reflexivity.
+  - exact E2.
+  - rewrite E3, (inv_aw _ _ _ _ HI), (inv_pid _ _ _ _ HI).
+    unfold zrest. cbn [zoff]. set (p' := zoff o).
+    rewrite sizes_app, sizes_cons, sizes_nil, size_T.
+    replace (p' + 1 + (sizes cs' + (1 + sizes cs + 0))) with (p' + 1 + sizes cs' + 1 + sizes cs) by lia.
+    set (n := p' + 1 + sizes cs' + 1 + sizes cs).
+    rewrite enc_children_snoc, none_ids_app.
+    rewrite (none_ids_all_next (enc_children _ _ _ _ cs'))
+      by (apply enc_children_all_next; unfold n; lia).
+    rewrite enc_children_len, enc_T. cbn [app none_ids].
+    unfold has_next at 1, row_of at 1. cbn [l_next_subtree].
+    replace (p' + 1 + sizes cs' + (1 + sizes cs) <? n) with false by (unfold n; lia).
+    cbn [app rev]. reflexivity.
+  - exact E4.
+  - pose proof (inv_kinds _ _ _ _ HI) as Hk. cbn [kinds_ok] in Hk. exact (proj2 Hk).
+  - pose proof (inv_outer _ _ _ _ HI) as Ho. cbn [forallb snd] in Ho.
+    apply andb_true_iff in Ho. destruct Ho as [Ho1 Ho2].
+    pose proof (inv_kinds _ _ _ _ HI) as Hk. cbn [kinds_ok] in Hk. destruct Hk as [-> _].
+    rewrite forallb_app, Ho1. cbn [forallb]. unfold closed_ok.
+    cbn [tkind kind_eqb negb no_root_below only_containers_have_children is_container orb andb].
+    assert (Hcs := inv_cs _ _ _ _ HI).
+    assert (H1 : forallb (fun c0 => negb (kind_eqb (tkind c0) KdRoot) && no_root_below c0) cs = true).
+    { rewrite forallb_forall in *. intros x Hx. specialize (Hcs x Hx). unfold closed_ok in Hcs.
+      apply andb_true_iff in Hcs. destruct Hcs as [Hcs _]. exact Hcs. }
+    assert (H2 : forallb only_containers_have_children cs = true).
+    { rewrite forallb_forall in *. intros x Hx. specialize (Hcs x Hx). unfold closed_ok in Hcs.
+      apply andb_true_iff in Hcs. destruct Hcs as [_ Hcs]. exact Hcs. }
+    rewrite H1, H2. reflexivity.
+  - pose proof (inv_outer _ _ _ _ HI) as Ho. cbn [forallb snd] in Ho.
+    apply andb_true_iff in Ho. exact (proj2 Ho).
+Qed.
+
+(* ------------------------------------------------------------------ *)
+(** * Operations that do not touch the tree *)
+
+Definition same_tree (c c' : context) : Prop :=
+  links_of_nodes (d_nodes (c_doc c')) = links_of_nodes (d_nodes (c_doc c)) /\
+  c_parent_id c' = c_parent_id c /\
+  c_awaiting c' = c_awaiting c /\
+  c_parent_prefixes c' = c_parent_prefixes c.
+
+Lemma same_tree_refl c : same_tree c c.
+Proof. repeat split. Qed.
+
+Lemma same_tree_trans c1 c2 c3 : same_tree c1 c2 -> same_tree c2 c3 -> same_tree c1 c3.
+Proof. unfold same_tree. intuition congruence. Qed.
+
+Definition P (c : context) : Prop := exists k cs outer, Inv k cs outer c.
+
+Lemma same_tree_nodes c c' :
+  d_nodes (c_doc c') = d_nodes (c_doc c) ->
+  c_parent_id c' = c_parent_id c ->
+  c_awaiting c' = c_awaiting c ->
+  c_parent_prefixes c' = c_parent_prefixes c ->
+  same_tree c c'.
+Proof. intros E1 E2 E3 E4. repeat split; try assumption. rewrite E1. reflexivity. Qed.
+
+Lemma P_same c c' : P c -> same_tree c c' -> P c'.
+Proof.
+  intros [k [cs [outer HI]]] [E1 [E2 [E3 E4]]]. exists k, cs, outer.
+  eapply Inv_same; eassumption.
+Qed.
+
+Lemma err_from_ok {A} text p mk (x : A) : err_from text p mk = Ok x -> False.
+Proof. unfold err_from. intros H. apply bind_ok in H. destruct H as [? [_ H]]. discriminate. Qed.
+
+Lemma err_at_ok {A} text s mk (x : A) : err_at text s mk = Ok x -> False.
+Proof. unfold err_at. intros H. apply bind_ok in H. destruct H as [? [_ H]]. discriminate. Qed.
+
+(* one step of inversion of a hypothesis [_ = Ok _] *)
+Ltac mstep H :=
+  lazymatch type of H with
+  | bind _ _ = Ok _ =>
+    let a := fresh "a" in let Hb := fresh "Hb" in
+    apply bind_ok in H; destruct H as [a [Hb H]]
+  | err_from _ _ _ = Ok _ => exfalso; exact (err_from_ok _ _ _ _ H)
+  | err_at _ _ _ = Ok _ => exfalso; exact (err_at_ok _ _ _ _ H)
+  | Err _ = Ok _ => discriminate H
+  | Panic _ = Ok _ => discriminate H
+  | OutOfFuel = Ok _ => discriminate H
+  | (if ?b then _ else _) = Ok _ => let E := fresh "E" in destruct b eqn:E
+  | (match ?x with _ => _ end) = Ok _ => let E := fresh "E" in destruct x eqn:E
+  end.
+
+Ltac mbind H x Hx := apply bind_ok in H; destruct H as [x [Hx H]].
+
+Section WithText.
+Variable text : bytes.
+
+Lemma push_ns_nodes name uri d d' : push_ns text name uri d = Ok d' -> d_nodes d' = d_nodes d.
+Proof.
+  unfold push_ns. destruct (find_ns _ _ _ _ _).
+  - intros H. injection H as <-. reflexivity.
+  - destruct (ns_values_limit <? _); [discriminate|]. intros H. injection H as <-. reflexivity.
+Qed.
+
+Lemma push_ref_nodes i d d' : push_ref i d = Ok d' -> d_nodes d' = d_nodes d.
+Proof.
+  unfold push_ref. destruct (nth_N _ _); [|discriminate]. intros H. injection H as <-. reflexivity.
+Qed.
+
+Lemma resolve_ns_loop_nodes start is : forall d d',
+  resolve_ns_loop text start is d = Ok d' -> d_nodes d' = d_nodes d.
+Proof.
+  induction is as [|i r IH]; intros d d' H; cbn [resolve_ns_loop] in H.
+  - injection H as <-. reflexivity.
+  - apply bind_ok in H. destruct H as [vidx [_ H]].
+    apply bind_ok in H. destruct H as [name [_ H]].
+    apply bind_ok in H. destruct H as [ex [_ H]].
+    apply bind_ok in H. destruct H as [d1 [Hd1 H]].
+    apply IH in H. rewrite H. destruct ex.
+    + injection Hd1 as <-. reflexivity.
+    + apply push_ref_nodes in Hd1. exact Hd1.
+Qed.
+
+Lemma resolve_namespaces_same c r c' :
+  resolve_namespaces text c = Ok (r, c') -> same_tree c c'.
+Proof.
+  unfold resolve_namespaces. intros H.
+  apply bind_ok in H. destruct H as [pnd [_ H]].
+  destruct (nd_kind pnd).
+  - apply bind_ok in H. destruct H as [r0 [_ H]]. injection H as _ <-. apply same_tree_refl.
+  - destruct (c_ns_start_idx c =? _).
+    + injection H as _ <-. apply same_tree_refl.
+    + destruct nss as [pa pe].
+      apply bind_ok in H. destruct H as [d1 [Hd1 H]].
+      apply bind_ok in H. destruct H as [r0 [_ H]]. injection H as _ <-.
+      apply resolve_ns_loop_nodes in Hd1. apply same_tree_nodes; try reflexivity. exact Hd1.
+  - apply bind_ok in H. destruct H as [r0 [_ H]]. injection H as _ <-. apply same_tree_refl.
+  - apply bind_ok in H. destruct H as [r0 [_ H]]. injection H as _ <-. apply same_tree_refl.
+  - apply bind_ok in H. destruct H as [r0 [_ H]]. injection H as _ <-. apply same_tree_refl.
+Qed.
+
+Lemma resolve_attrs_loop_nodes nss start l : forall d d',
+  resolve_attrs_loop text nss start l d = Ok d' -> d_nodes d' = d_nodes d.
+Proof.
+  induction l as [|a r IH]; intros d d' H; cbn [resolve_attrs_loop] in H.
+  - injection H as <-. reflexivity.
+  - apply bind_ok in H. destruct H as [ns_idx [_ H]].
+    apply bind_ok in H. destruct H as [name [_ H]].
+    apply bind_ok in H. destruct H as [dup [_ H]].
+    destruct dup.
+    + unfold err_from in H. apply bind_ok in H. destruct H as [? [_ H]]. discriminate.
+    + apply IH in H. rewrite H. reflexivity.
+Qed.
+
+Lemma resolve_attributes_same nss c r c' :
+  resolve_attributes text nss c = Ok (r, c') -> same_tree c c'.
+Proof.
+  unfold resolve_attributes. destruct (c_cur_attrs c) as [|a l] eqn:E.
+  - intros H. injection H as _ <-. apply same_tree_refl.
+  - destruct (u32_max <=? _); [discriminate|]. intros H.
+    apply bind_ok in H. destruct H as [d1 [Hd1 H]].
+    apply bind_ok in H. destruct H as [r0 [_ H]]. injection H as _ <-.
+    apply resolve_attrs_loop_nodes in Hd1. apply same_tree_nodes; try reflexivity. exact Hd1.
+Qed.
+
+Lemma normalize_attribute_same value c v c' :
+  normalize_attribute text value c = Ok (v, c') -> same_tree c c'.
+Proof.
+  unfold normalize_attribute. intros H. mstep H.
+  - mstep H. destruct a as [t ld]. mstep H. injection H as _ <-. repeat split.
+  - injection H as _ <-. apply same_tree_refl.
+Qed.
+
+Lemma process_attribute_same r ql el prefix local value c c' :
+  process_attribute text r ql el prefix local value c = Ok c' -> same_tree c c'.
+Proof.
+  unfold process_attribute. intros H. mstep H. destruct a as [v c1].
+  apply normalize_attribute_same in Hb.
+  eapply same_tree_trans; [exact Hb|]. clear Hb.
+  repeat (mstep H).
+  all: try (injection H as <-); try apply same_tree_refl.
+  all: try (repeat split; fail).
+  all: match goal with Hp : push_ns _ _ _ _ = Ok _ |- _ => apply push_ns_nodes in Hp; apply same_tree_nodes; try reflexivity; exact Hp end.
+Qed.
+
+(* ---- text ---- *)
+Lemma rev_cons_inv {A} (l : list A) x r : rev l = x :: r -> l = rev r ++ [x].
+Proof. intros H. rewrite <- (rev_involutive l), H. reflexivity. Qed.
+
+Lemma merge_text_same c c' : merge_text text c = Ok c' -> same_tree c c'.
+Proof.
+  unfold merge_text. intros H.
+  destruct (rev (d_nodes (c_doc c))) as [|nd l] eqn:E; [discriminate|].
+  destruct (nd_kind nd) eqn:Ek; try discriminate.
+  mstep H. injection H as <-.
+  apply rev_cons_inv in E. apply upd_node_spec in Hb. destruct Hb as [-> _].
+  repeat split. cbn [c_doc set_doc d_nodes set_nodes].
+  change (links_of_nodes ?x) with (map link_of x).
+  rewrite E. rewrite mapi_N_app, !map_app. f_equal.
+  - f_equal. apply mapi_N_id. intros i x _ Hi. rewrite len_N_app, len_N_cons, len_N_nil.
+    replace (i =? len_N (rev l) + (1 + 0) - 1) with false by lia. reflexivity.
+  - cbn [mapi_N map]. f_equal.
+    destruct (_ =? _); [|reflexivity].
+    unfold link_of. cbn [nd_set_kind nd_kind nd_parent nd_prev_sibling nd_last_child nd_next_subtree].
+    rewrite Ek. reflexivity.
+Qed.
+
+Lemma reset_after_text_same c c' : reset_after_text text c = Ok c' -> same_tree c c'.
+Proof.
+  unfold reset_after_text. intros H.
+  destruct (c_after_text c) as [|x [|y l]].
+  - injection H as <-. apply same_tree_refl.
+  - injection H as <-. repeat split.
+  - mstep H. injection H as <-. apply merge_text_same in Hb.
+    eapply same_tree_trans; [exact Hb|]. repeat split.
+Qed.
+
+Lemma P_append_leaf kind r c id c' :
+  P c -> append_node kind r c = Ok (id, c') ->
+  is_element_kind kind = false -> kind_of kind <> KdRoot -> P c'.
+Proof.
+  intros [k [cs [outer HI]]] H He Hk.
+  exists k, (cs ++ [T (kind_of kind) []]), outer.
+  pose proof (Inv_append_closed _ _ _ _ _ _ _ _ HI H Hk) as HI'.
+  destruct (append_node_rows _ _ _ _ _ _ _ _ HI H) as [nodes' [_ [Hc' _]]].
+  rewrite He in Hc'. rewrite Hc' in HI' |- *. exact HI'.
+Qed.
+
+Lemma append_text_P t r c c' : P c -> append_text t r c = Ok c' -> P c'.
+Proof.
+  unfold append_text. intros HP H. mstep H. injection H as <-.
+  apply (P_same a); [|repeat split].
+  destruct (c_after_text c).
+  - mstep Hb. destruct a0 as [id c1]. injection Hb as <-.
+    eapply P_append_leaf; [exact HP|exact Hb0|reflexivity|].
+    destruct t; discriminate.
+  - injection Hb as <-. exact HP.
+Qed.
+
+Lemma process_cdata_P txt r c c' : P c -> process_cdata text txt r c = Ok c' -> P c'.
+Proof.
+  unfold process_cdata. intros HP H. destruct (mem_b 13 _); eapply append_text_P; eassumption.
+Qed.
+
+Lemma removelast_len {A} (l : list A) : length (removelast l) = pred (length l).
+Proof.
+  induction l as [|x r IH]; [reflexivity|].
+  destruct r as [|y r']; [reflexivity|].
+  change (removelast (x :: y :: r')) with (x :: removelast (y :: r')).
+  cbn [length] in *. rewrite IH. reflexivity.
+Qed.
+
+Lemma links_mapi_same (g : N -> node_data -> node_data) nodes :
+  (forall i x, link_of (g i x) = link_of x) ->
+  links_of_nodes (mapi_N 0 g nodes) = links_of_nodes nodes.
+Proof.
+  intros H. rewrite !links_of_nodes_map.
+  rewrite (map_mapi_N link_of g (fun _ x => x)) by exact H.
+  apply mapi_N_id. intros. reflexivity.
+Qed.
+
+Lemma process_element_P e r c c' : P c -> process_element text e r c = Ok c' -> P c'.
+Proof.
+  unfold process_element. intros HP H.
+  destruct (slice_len _ =? 0). { destruct e; try discriminate; mstep H. }
+  mstep H. destruct a as [nss c1]. apply resolve_namespaces_same in Hb.
+  mstep H. destruct a as [attrs c2]. apply resolve_attributes_same in Hb0.
+  assert (HP2 : P c2).
+  { eapply P_same; [|exact Hb0]. eapply P_same; [eapply P_same; [exact HP|exact Hb]|].
+    repeat split. }
+  clear HP Hb Hb0. destruct HP2 as [k [cs [outer HI]]].
+  destruct e as [|prefix local|].
+  - (* open *)
+    mstep H. mstep H. destruct a0 as [id c3]. injection H as <-.
+    exists KdElem, [], ((k, cs) :: outer).
+    eapply Inv_open; [exact HI|exact Hb0|reflexivity].
+  - (* close *)
+    mstep H; [mstep H|]. mbind H pnd' Hpnd.
+    destruct (nth_N _ _) as [pnd|] eqn:Epnd; [|discriminate].
+    injection Hpnd as <-.
+    mbind H ppx Hppx. mbind H nodes1 Hb1. mbind H u Hu.
+    pose proof (inv_parent_row _ _ _ _ _ HI Epnd) as Hrow.
+    assert (Hpar : nd_parent pnd = zpar outer).
+    { change (nd_parent pnd) with (l_parent (link_of pnd)). rewrite Hrow. reflexivity. }
+    rewrite Hpar in H. destruct outer as [|[k' cs'] o]; cbn [zpar] in H; [mstep H|].
+    destruct (removelast _) eqn:Erl in H; [discriminate|]. injection H as <-.
+    exists k', (cs' ++ [T k cs]), o.
+    apply upd_node_spec in Hb1. destruct Hb1 as [-> _].
+    eapply Inv_close; [exact HI| | | |].
+    + cbn [c_doc set_parent_prefixes set_parent_id set_awaiting set_doc d_nodes set_nodes].
+      apply links_mapi_same. intros i x. destruct (i =? _); reflexivity.
+    + reflexivity.
+    + reflexivity.
+    + cbn [c_parent_prefixes set_parent_prefixes]. rewrite <- Erl.
+      cbn [c_parent_prefixes set_parent_id set_awaiting set_doc].
+      rewrite removelast_len, (inv_pp _ _ _ _ HI). reflexivity.
+  - (* empty *)
+    mstep H. mstep H. destruct a0 as [id c3]. injection H as <-.
+    exists k, (cs ++ [T KdElem []]), outer.
+    pose proof (Inv_append_closed _ _ _ _ _ _ _ _ HI Hb0) as HI'.
+    destruct (append_node_rows _ _ _ _ _ _ _ _ HI Hb0) as [nodes' [_ [Hc' _]]].
+    cbn [is_element_kind] in Hc'. rewrite Hc'. cbn [c_awaiting set_awaiting app].
+    rewrite Hc' in HI'. apply HI'. discriminate.
+Qed.
+End WithText.
